@@ -138,6 +138,10 @@ func (r *Runner) monC11(s *Step) {
 				sg := r.Inst.Policy + ":" + kind
 				if c.UpdFailed {
 					sg += ":after-failed-update"
+				} else {
+					// e.g. another container's rejected resource update is still cached (KF1) and
+					// eats the capacity this one needs
+					sg += r.BrokenStateSuffix()
 				}
 				r.Violate("C11", "live-without-allocation", sg, "after restart (%s) + Synchronize the runtime reports %s container %s but it holds no allocation (a cache-less plugin synchronized with the same lists allocates every container)", kind, c.State, c.Key)
 			}
